@@ -17,6 +17,9 @@ use std::collections::BTreeSet;
 pub struct HistCase {
     pub base: StructSpec,
     pub ops: Vec<Op>,
+    /// tracers appended to the master key before anything else (0 = tracing level 1)
+    #[serde(default)]
+    pub extra_tracers: u8,
 }
 
 #[derive(Clone, Debug)]
@@ -129,7 +132,7 @@ pub fn case_strategy(p: &Profile) -> impl Strategy<Value = HistCase> {
         struct_spec(p.max_dims, p.max_attrs, p.max_rights, p.odd_names),
         proptest::collection::vec(op_strategy(p), p.min_ops..=p.max_ops),
     )
-        .prop_map(|(base, ops)| HistCase { base, ops })
+        .prop_flat_map(|(base, ops)| prop_oneof![6 => Just(0u8), 1 => Just(1u8), 1 => Just(2u8)].prop_map(move |extra_tracers| HistCase { base: base.clone(), ops: ops.clone(), extra_tracers }))
 }
 
 pub struct Outcome {
@@ -145,8 +148,9 @@ pub struct Outcome {
 }
 
 /// Apply the base structure to a fresh world (real API + model in lock-step) and update.
-pub fn setup_world(focus: &str, base: &StructSpec) -> Result<World, Abort> {
+pub fn setup_world(focus: &str, base: &StructSpec, extra_tracers: u8) -> Result<World, Abort> {
     let mut w = World::new(focus).map_err(Abort::Violation)?;
+    w.raise_tracing_level(extra_tracers)?;
     for d in &base.dims {
         let name_ix = crate::gen::DIM_NAMES.iter().position(|n| *n == d.name);
         match name_ix {
@@ -166,7 +170,7 @@ pub fn setup_world(focus: &str, base: &StructSpec) -> Result<World, Abort> {
 }
 
 pub fn execute(focus: &str, case: &HistCase) -> Result<Outcome, Fail> {
-    let mut w = match setup_world(focus, &case.base) {
+    let mut w = match setup_world(focus, &case.base, case.extra_tracers) {
         Ok(w) => w,
         Err(Abort::Violation(f)) => return Err(f),
         Err(Abort::OffProperty(s)) => {
@@ -226,6 +230,9 @@ pub fn check_case(hc: &HistCheck, case: &HistCase, col: &Collector) -> CheckResu
             continue;
         }
         col.class_n("ops-executed", case.ops.len() as u64);
+        if case.extra_tracers > 0 {
+            col.class(&format!("hist:tracing-level-{}", 1 + case.extra_tracers));
+        }
         col.class_n("decaps-outcomes-asserted", out.outcomes);
         col.class_n("wire-comparisons", out.wire_checks);
         for (k, v) in &out.counters {
